@@ -125,7 +125,7 @@ def run(ctx):
         # stratified by (variant, output type), so that every kind of variant meets every type in the quick tier too
         buckets = {}
         for c in variants:
-            buckets.setdefault((c["v"], c["t"]), []).append(c)
+            buckets.setdefault((c["v"], c["t"], c["x"] in ("obs", "fcst")), []).append(c)
         per = max(1, 1100 // len(buckets))
         variants = [c for key in sorted(buckets) for c in rng.sample(buckets[key], min(len(buckets[key]), per))]
         kinds = ["full", "missing-slice", "single-leadtime"]
